@@ -6,7 +6,7 @@ import time
 import z3
 
 from vlib import env
-from vlib.zrun import twin_verdict, explore_and_prove, all_eq, concretize, pyrepr, eq_term
+from vlib.zrun import twin_verdict, explore_and_prove, all_eq, concretize, pyrepr, eq_term, wrapper_exc
 from vlib.zsym import Real, Int, SymNum, lift, model_value, _q
 
 META = {
@@ -50,6 +50,11 @@ s = Substance("X", composition=dict(comp))
 m1 = s.mass; m2 = s.mass
 if m1 != m2 or s.composition != comp: bad.append("repeated Substance.mass reads differ / composition mutated: %%r %%r %%r" %% (m1, m2, s.composition))
 if abs(m1 - exp) > slack + 1e-12: bad.append("Substance.mass %%r vs reference %%r" %% (m1, exp))
+for fstr, expc in (("Fe", {26: 1}), ("H2O", {1: 2, 8: 1})):
+    Substance.from_formula(fstr, charge=3)
+    again = Substance.from_formula(fstr)
+    if {k: v for k, v in again.composition.items() if v != 0} != expc or again.mass != mass_from_composition(expc):
+        bad.append("Substance.from_formula(%%r) after one with an explicit charge: composition %%r mass %%r" %% (fstr, again.composition, again.mass))
 for i, (sym, name, w) in enumerate(ref["elements"]):
     if symbols[i] != sym or names[i].lower() != name.lower(): bad.append("table entry %%d: %%s %%s" %% (i + 1, symbols[i], names[i]))
 for b in bad: print("MISMATCH", b)
@@ -73,7 +78,20 @@ def task_table():
     assum = [v.t >= 0 for v in n.values()]
     me = REF["electron_mass_u"]
 
+    # int()/float() inside the module under test act on symbols too: int truncates towards zero (a coercion of the counts would show)
+    periodic.int = lambda x=0, *a: x.truncated() if hasattr(x, "truncated") else int(x, *a)
+    periodic.float = lambda x=0: x if hasattr(x, "truncated") else float(x)
+    qh = Real("qh")
+
     def run():
+        # history through the formula interface: a substance created from a neutral formula WITH an explicit charge, then the same
+        # formula again without one - the second one is the neutral substance (nothing may be shared between the two)
+        hist = []
+        for fstr in ("Fe", "H2O"):
+            Substance.from_formula(fstr, charge=qh)
+            again = Substance.from_formula(fstr)
+            hist.append((fstr, dict(again.composition), again.mass, periodic.mass_from_composition({k: v for k, v in again.composition.items() if k != 0})))
+        hist_ok.append(hist)
         m = periodic.mass_from_composition(dict(comp))
         s = Substance("X", composition=dict(comp))
         m1 = s.mass
@@ -82,11 +100,19 @@ def task_table():
         return m, m1, m2, s.composition, s2.mass
 
     parts = {}
+    hist_ok = []
+    EXPECT = {"Fe": {26: 1}, "H2O": {1: 2, 8: 1}}
 
     def goal(p, twin=False):
         if p.kind == "exc":
             return False
         m, m1, m2, comp_after, mgiven = p.value
+        hconds = []
+        for fstr, c2, mass2, mneutral in hist_ok[-1]:
+            if {k: v for k, v in c2.items() if not (k == 0 and not isinstance(v, SymNum) and v == 0)} != EXPECT[fstr]:
+                parts["history"] = z3.BoolVal(False)
+                return False
+            hconds.append(eq_term(mass2, mneutral))
         ref = z3.Sum([n[z].t * _q(REF["elements"][z - 1][2]) for z in n]) - q.t * _q(me)
         if twin:
             ref = ref + n[50].t * _q(0.2)
@@ -96,7 +122,8 @@ def task_table():
         mt = lift(m)
         parts["value"] = z3.And(mt - ref <= slack, ref - mt <= slack)
         parts["reads"] = z3.And(eq_term(m1, m), eq_term(m2, m), eq_term(mgiven, Real("given")))
-        return z3.And(parts["value"], parts["reads"])
+        parts["history"] = z3.And(*hconds)
+        return z3.And(parts["value"], parts["reads"], parts["history"])
 
     o = explore_and_prove(run, assum, goal)
     ot = explore_and_prove(run, assum, lambda p: goal(p, True), max_fail=1)
@@ -112,7 +139,7 @@ def task_table():
             if not value_fails or not cc:
                 # the failure concerns repeated reads / mutation of the caller's mapping: exercise it with an ion
                 cc = {0: -2, 16: 1, 8: 4}
-        res["violations"].append(dict(key="mass:%s" % ("exc" if p.kind == "exc" else "value"),
+        res["violations"].append(dict(key="mass:%s" % ("exc" if p.kind == "exc" else "value"), soft=(p.kind == "exc" and wrapper_exc(p.value)),
                                       desc="composition %s: %s" % (cc, "raised %r" % (p.value,) if p.kind == "exc" else "mass differs from reference / repeated reads"),
                                       replay_src=REPLAY % dict(comp=pyrepr(cc))))
     # symbols / names / index <-> Z (finite table, compared entry by entry with the reference)
